@@ -62,6 +62,7 @@ func (m *memtable) add(vector []float32, text string, metadata map[string]interf
 	if m.frozen.Load() {
 		return 0, fmt.Errorf("memtable is frozen")
 	}
+	verifPoint("memtable:add:checked")
 
 	m.mu.Lock()
 	defer m.mu.Unlock()
@@ -94,6 +95,7 @@ func (m *memtable) addWithID(id uint32, vector []float32, text string, metadata 
 	if m.frozen.Load() {
 		return fmt.Errorf("memtable is frozen")
 	}
+	verifPoint("memtable:addWithID:checked")
 
 	m.mu.Lock()
 	defer m.mu.Unlock()
